@@ -344,3 +344,32 @@ def psr_checks(ck, F):
         e = bits.ret_expr(nb) if nb.defs().get(0) else None
         an, fs = panics._agg_name(e) if e else (None, None)
         ck.ob("C08.4", "PSR::new", an == "sim::PSR" and fs and interval(fs[0]) == (P["reset"], P["reset"]), "PSR::new() = x%04X" % ((interval(fs[0]) or (0,))[0] if fs else 0), "src/sim.rs:%s" % nb.line)
+    substrate(ck, F)
+
+def substrate(ck, F):
+    """C08.5: the state accessors every instruction arm goes through, in normal form (a slip here changes what
+    every arm reads or writes while leaving the arms themselves untouched)"""
+    from lib import nf
+    forms = [
+        ("<sim::mem::RegFile as std::ops::Index<ast::Reg>>::index", "index[arg1.0, from(arg2)]", "reg_file[r] is element usize::from(r)", "src/sim/mem.rs"),
+        ("<sim::mem::RegFile as std::ops::IndexMut<ast::Reg>>::index_mut", "index[arg1.0, from(arg2)]", "reg_file[r] (mutable) is element usize::from(r)", "src/sim/mem.rs"),
+        ("ast::<impl std::convert::From<ast::Reg> for usize>::from", "from(Reg::reg_no(arg1))", "usize::from(reg) is its number", "src/ast.rs"),
+        ("ast::Reg::reg_no", "(discr(arg1) as u8)", "a register's number is its variant index (R0..R7 in order, C05.3)", "src/ast.rs"),
+        ("<sim::mem::MemArray as std::ops::Index<u16>>::index", "index[(arg1.0.0.pointer as *const [sim::mem::Word; 65536]), (arg2 as usize)]", "mem[addr] is element addr of the 65536-word array", "src/sim/mem.rs"),
+        ("sim::mem::Word::get", "arg1.data", "Word::get returns the data", "src/sim/mem.rs"),
+        ("sim::mem::Word::new_init", "Word(arg1, 65535)", "an initialised word has all init bits set", "src/sim/mem.rs"),
+        ("sim::mem::Word::is_init", "Eq(65535, arg1.init)", "initialised means all 16 init bits", "src/sim/mem.rs"),
+        ("sim::Simulator::offset_pc", "Simulator::set_pc(arg1, from(wrapping_add_signed(arg1.pc, arg2)), arg3)", "offset_pc(n) sets PC to PC + n (wrapping)", "src/sim.rs"),
+    ]
+    for path, want, what, file in forms:
+        nf.expect_deep(ck, F, "C08.5", path.split("::")[-2].strip("<> ") + "::" + path.split("::")[-1], path, [want], what, file=file)
+    im = [p for p in F.bodies if p.startswith("<sim::mem::MemArray as std::ops::IndexMut<u16>>::index_mut")]
+    for p in im[:1]:
+        nf.expect_deep(ck, F, "C08.5", "MemArray::index_mut", p, ["index[(arg1.0.0.pointer as *const [sim::mem::Word; 65536]), (arg2 as usize)]"], "mem[addr] (mutable) is element addr", file="src/sim/mem.rs")
+    for name, want in (("sim::mem::Word::set", [("data", "arg2"), ("init", "65535")]), ("sim::mem::Word::clear_init", [("init", "0")])):
+        b = F.bodies.get(name)
+        if ck.anchor("C08.5", name, b):
+            xb = nf.XB(b)
+            st = [([e.get("name") for e in s["p"]["proj"] if isinstance(e, dict) and "f" in e][-1:], nf.pp_x(xb.expr_of_rvalue(s["rv"], 8, (bi, si)))) for bi, si, s in b.stmts() if s["k"] == "assign" and s["p"]["proj"]]
+            got = [(n[0] if n else "?", v) for n, v in st]
+            ck.ob("C08.5", name.split("::")[-2] + "::" + name.split("::")[-1], got == want, "%s stores %s" % (name, got), "src/sim/mem.rs:%s" % b.line)
